@@ -129,6 +129,11 @@ fn parse_args() -> Args {
 
 fn main() {
     let args = parse_args();
+    if args.prop == "SELFTEST" {
+        // deliberate defect for the sanitizer build's self-test (engine = race | leak | uaf)
+        props::san::selftest(&args.engine);
+        return;
+    }
     install_panic_hook();
     let _ = ctl::ctl();
     // wall-clock watchdog: a firing is INCONCLUSIVE, never a violation
